@@ -72,8 +72,7 @@ function_implementations!(
         Dayname,
         Quarter,
         Date,
-        UnixTimestamp,
-        IsNull
+        UnixTimestamp
     ],
     [
         Plus,
@@ -143,6 +142,8 @@ function_implementations!(
             Function::Concat(n) => Arc::new(function::concat(n)),
             Function::Random(_n) => Arc::new(function::random(Mutex::new(OsRng))), //TODO change this initialization
             Function::Coalesce => Arc::new(function::coalesce()),
+            // Not NULL-propagating: NULL IS NULL is true, not NULL
+            Function::IsNull => Arc::new(function::is_null()),
             _ => unreachable!(),
         }
     }
